@@ -49,6 +49,7 @@ type lintRecord struct {
 	sel     map[string]bool
 	script  Script
 	clock   int64 // simulated instant at which the call was made (0 = real clock)
+	inject  string // statement site at which a panic was injected into the running rule ("" = none fired)
 }
 
 type histState struct {
@@ -74,6 +75,8 @@ type histState struct {
 	tmpDir   string
 	curScriptBad map[string]bool
 	harnessErr   string
+	hangDER      []byte // bytes and configuration text of the lint call in progress (for the hang report)
+	hangCfg      string
 	hasRegister  int // -1 unknown, 0 no, 1 the plan registers late probes
 	clock        int64           // simulated clock (fine-grain build, clock mode); 0 = real clock
 	clockReads   map[string]int  // clock reads of the code under test since the last lint call began, by site
@@ -442,6 +445,14 @@ func (h *histState) lintCall(i int, p *Parsed, reg lint.Registry, path string, p
 		h.aborted = true
 		h.violate(Violation{Property: "C01", Class: "hang", Op: i, Site: kindNames[p.Kind] + "/" + path,
 			Detail: fmt.Sprintf("the %s lint call of op %d (path %q) did not return within %v", kindNames[p.Kind], i, path, opHangLimit)})
+		// does the same call return when made alone in a fresh process? then it is what happened before
+		// in this process that keeps it from returning
+		if h.hangDER != nil && workerMode != "noref" {
+			if R := ref(p.Kind, h.hangDER, h.hangCfg, nil, ""); !R.Hung && R.CfgErr == "" {
+				h.violate(Violation{Property: "C05", Class: "hang_after_history", Op: i, Site: kindNames[p.Kind] + "/" + path,
+					Detail: fmt.Sprintf("the %s lint call of op %d does not return after this history, while the same object linted alone in a fresh process does", kindNames[p.Kind], i)})
+			}
+		}
 		return &CanonSet{Results: map[string]Res{}, Hung: true}, true
 	}
 	if h.clock != 0 {
@@ -463,6 +474,34 @@ func (h *histState) lintCall(i int, p *Parsed, reg lint.Registry, path string, p
 	}
 	h.checkShape(i, rs, p.Kind, sel, cs)
 	return cs, false
+}
+
+// rawLint runs the lints of a registry over a certificate on the given path without any check
+// (the counting pass of the panic injection).
+func (h *histState) rawLint(p *Parsed, reg lint.Registry, path string, perm uint64) {
+	if p.Kind != KCert {
+		return
+	}
+	switch path {
+	case "perlint":
+		g := newRNG(perm)
+		cfg := reg.GetConfiguration()
+		ls := reg.CertificateLints().Lints()
+		for _, j := range g.Perm(len(ls)) {
+			ls[j].Execute(p.Cert, cfg)
+		}
+	case "deprecated":
+		cfg := reg.GetConfiguration()
+		for _, n := range reg.CertificateLints().Names() {
+			if l := reg.ByName(n); l != nil {
+				l.Execute(p.Cert, cfg)
+			}
+		}
+	case "global":
+		zlint.LintCertificate(p.Cert)
+	default:
+		zlint.LintCertificateEx(p.Cert, reg)
+	}
 }
 
 func resOf(r *lint.LintResult) Res {
@@ -573,16 +612,79 @@ func (h *histState) doLint(i int, op *Op) {
 		path = "ex"
 	}
 	m := h.mregs[op.Reg]
+	injected := ""
+	if op.Inj != 0 && o.spec.Kind == KCert {
+		if !fineGrainBuild {
+			h.aborted, h.harnessErr = true, "panic injection needs the zsim.fg build"
+			return
+		}
+		// pass 1, on a fresh twin: which statements of rule bodies and helpers does this call execute, how often?
+		counts := map[string]int{}
+		if twin, err := parseObj(o.spec.Kind, o.spec.DER); err == nil {
+			setStmtHook(func(site string) { counts[site]++ })
+			func() {
+				defer func() { recover() }()
+				h.rawLint(twin, h.regs[op.Reg], path, op.Perm)
+			}()
+			setStmtHook(nil)
+		}
+		if len(counts) > 0 {
+			// pass 2, the op's own call: a seeded statement (drawn from the sorted set of executed sites, so
+			// that the choice does not follow Go map iteration inside the code under test) panics at a
+			// seeded occurrence - the first one for half of the draws
+			sites := sortedKeys(counts)
+			if (op.Inj>>39)&1 == 1 {
+				// half of the draws aim at the shared helpers (where state shared between rules and calls would live)
+				var helpers []string
+				for _, s := range sites {
+					if strings.HasPrefix(s, "util/") {
+						helpers = append(helpers, s)
+					}
+				}
+				if len(helpers) > 0 {
+					sites = helpers
+				}
+			}
+			target := sites[int(op.Inj%uint64(len(sites)))]
+			occ := 0
+			if (op.Inj>>40)&1 == 1 {
+				occ = int((op.Inj >> 41) % uint64(counts[target]))
+			}
+			k := 0
+			setStmtHook(func(site string) {
+				if site != target {
+					return
+				}
+				if k == occ {
+					k++
+					injected = site
+					setStmtHook(nil)
+					panic("zsim-injected-fault at " + site)
+				}
+				k++
+			})
+		}
+	}
+	h.hangDER, h.hangCfg = o.spec.DER, h.cfgText(m.Cfg)
 	cs, partial := h.lintCall(i, p, h.regs[op.Reg], path, op.Perm, m.Sel)
+	if op.Inj != 0 {
+		setStmtHook(nil)
+		if injected != "" {
+			h.ctr.inc("fault/panic_injected_in_rule")
+			h.mark("inject_sites", injected)
+		} else {
+			h.ctr.inc("panic_injection_not_reached")
+		}
+	}
 	if cs.Hung {
 		return
 	}
 	o.linted = true
 	h.ctr.inc("lint_path_" + path)
 	h.ctr.inc("lint_kind_" + kindNames[o.spec.Kind])
-	rec := &lintRecord{op: i, obj: op.Obj, reg: op.Reg, cfg: m.Cfg, path: path, fresh: op.Fresh, canon: cs, partial: partial, sel: h.selNow(m), clock: h.clock}
+	rec := &lintRecord{op: i, obj: op.Obj, reg: op.Reg, cfg: m.Cfg, path: path, fresh: op.Fresh, canon: cs, partial: partial, sel: h.selNow(m), clock: h.clock, inject: injected}
 	h.recs = append(h.recs, rec)
-	h.log.Add("op %d lint obj=%d reg=%d path=%s fresh=%v cfg=%d -> %s", i, op.Obj, op.Reg, path, op.Fresh, m.Cfg, cs.hash())
+	h.log.Add("op %d lint obj=%d reg=%d path=%s fresh=%v cfg=%d inject=%s -> %s", i, op.Obj, op.Reg, path, op.Fresh, m.Cfg, injected, cs.hash())
 	h.mark("history_prefix", h.histHash)
 	h.mark("triples", fmt.Sprintf("%s|%s|%s", shortHash(string(o.spec.DER)), selKey(m.Sel), shortHash(h.cfgText(m.Cfg))))
 	h.checkReadOnly(i, o)
